@@ -33,6 +33,8 @@ URLS = ["http://a.b", "https://x/y?z=1", "ftp://h", "mailto:x", "//nohost", "nos
 BYTES = [b"", b"ab", b"\x00\xff", "text", "\u00e9", "\udc80", b"Z", "aGVsbG8=", b"\xde\xad\xbe\xef" * 3, 5, None]
 SECRETS = ["s3cr3t!#1", "p\u00e4ss w\u00f6rd!", "hunter2!!", "x!y@z#", "tok!en~value", "pw!|one", "!!secret!!"]
 CHALLENGES = ["pw!one", b"pw!two", "", "\u00fcn\u00ef!", "x!" * 20, b"\x00\xff!", "pw!one ", "Pw!one", 5, None, ["pw"]]
+PLAIN = [None, True, False, 0, 7, -3, 2 ** 40, 1.5, -0.0, "str", "", "x y", [], [1], [1, "two", None], {}, {"a": 1},
+         [[1], {"b": [2]}], {"k": {"n": [1.5, None]}}, "\u00e9t\u00e9", "<&>", "key: v"]
 WRONG = [None, True, 0, 7, -3, 2 ** 70, 1.5, float("inf"), float("nan"), "str", "", b"bytes", [], [1], (1, 2), {}, {"a": 1},
          [[1], {"b": [2]}], Opaque(1), {"method": "xor"}, ("t",), [None]]
 
@@ -90,7 +92,9 @@ def candidate(rng, spec, ctx, depth=0):
             return rng.choice(["notalist", 5, None, {"a": 1}, Opaque(2)])
         n = rng.choice([0, 1, 1, 2, 3, 4])
         if item is None or item["kind"] == "any":
-            xs = [rng.choice(WRONG[1:15]) for _ in range(n)]
+            xs = [rng.choice(PLAIN if getattr(ctx, "plain", False) else WRONG[1:15]) for _ in range(n)]
+            if getattr(ctx, "plain", False):
+                return xs
         elif item["kind"] in ("schema", "configtype"):
             xs = [{} for _ in range(n)]
         else:
@@ -107,12 +111,18 @@ def candidate(rng, spec, ctx, depth=0):
         for _ in range(n):
             want = "valid" if rng.random() < 0.85 else "any"
             kk = gen_value(rng, kf, want, ctx, depth + 1) if kf else rng.choice(["k1", "k2", "k3", "a", 5])
-            vv = gen_value(rng, vf, want, ctx, depth + 1) if vf else rng.choice(WRONG[1:15])
+            if getattr(ctx, "plain", False) and not kf:
+                kk = rng.choice(["k1", "k2", "k3", "a", "key x"])
+            vv = gen_value(rng, vf, want, ctx, depth + 1) if vf else rng.choice(PLAIN if getattr(ctx, "plain", False) else WRONG[1:15])
             try:
                 out[kk] = vv
             except TypeError:
                 pass
         return out
+    if getattr(ctx, "plain", False):
+        if k == "any":
+            return rng.choice(PLAIN)
+        return rng.choice(_pool(spec))
     if rng.random() < 0.12:
         return rng.choice(WRONG)
     return rng.choice(_pool(spec))
@@ -193,9 +203,10 @@ def gen_normal(rng, spec, ctx):
 class Ctx:
     """What the model needs to know about the platform."""
 
-    def __init__(self, world):
+    def __init__(self, world, plain=False):
         self.world = world
         self.dns_failing = False
+        self.plain = plain   # only plain (JSON-like) data for untyped fields: persistence scenarios
 
 
 def seed_world(world):
